@@ -18,9 +18,9 @@ pub fn normalize(thorough: bool) -> Report {
     let maxd = if thorough { 3 } else { 2 };
     let mut r = Report::new(
         "every package descriptor with up to D dependencies drawn (with repetition, every order) from {libcnb:known/a, libcnb:known-b, libcnb:unknown, relative paths ./x, ../y, a/./b/../c, ../../../up, docker://img, https://h/p, urn:cnb:registry:x, /abs/./p} x id->path maps {complete, missing one, empty} x 2 descriptor locations: the real normalize_package_descriptor replaces each libcnb: reference by the mapped location (missing id => error, never kept or dropped), makes each relative path absolute and dot-free relative to the descriptor's directory, copies every other URI verbatim, keeps count, order, buildpack URI and platform, and the result serialises and parses again; non-trivial = descriptors with at least one libcnb: or relative dependency",
-        &format!("D <= {maxd} dependencies over 11 URI kinds"),
+        &format!("D <= {maxd} dependencies over 14 URI kinds (incl. libcnb: with an empty, reserved and malformed id)"),
     );
-    let kinds: Vec<&str> = vec!["libcnb:known/a", "libcnb:known-b", "libcnb:unknown", "./x", "../y", "a/./b/../c", "../../../up", "docker://img", "https://h/p", "urn:cnb:registry:x", "/abs/./p"];
+    let kinds: Vec<&str> = vec!["libcnb:", "libcnb:app", "libcnb:a_b", "libcnb:known/a", "libcnb:known-b", "libcnb:unknown", "./x", "../y", "a/./b/../c", "../../../up", "docker://img", "https://h/p", "urn:cnb:registry:x", "/abs/./p"];
     let locations = [PathBuf::from("/ws/buildpacks/meta/package.toml"), PathBuf::from("/package.toml")];
     let mut full: BTreeMap<BuildpackId, PathBuf> = BTreeMap::new();
     full.insert("known/a".parse().unwrap(), PathBuf::from("/out/known_a")); full.insert("known-b".parse().unwrap(), PathBuf::from("/out/known-b"));
@@ -38,7 +38,7 @@ pub fn normalize(thorough: bool) -> Report {
                     r.evaluations += 1;
                     if deps.iter().any(|u| u.starts_with("libcnb:") || (!u.contains(':') && !u.starts_with('/'))) { r.nontrivial += 1; }
                     let got = pd::normalize_package_descriptor(&descriptor, loc, map);
-                    let missing = deps.iter().any(|u| *u == "libcnb:unknown" || (mi == 1 && *u == "libcnb:known-b") || (mi == 2 && u.starts_with("libcnb:")));
+                    let missing = deps.iter().any(|u| *u == "libcnb:unknown" || ["libcnb:", "libcnb:app", "libcnb:a_b"].contains(u) || (mi == 1 && *u == "libcnb:known-b") || (mi == 2 && u.starts_with("libcnb:")));
                     let desc = format!("deps={deps:?} map={} location={loc:?}", ["complete", "missing known-b", "EMPTY"][mi]);
                     match got {
                         Err(e) => { if !missing { r.violation("unexpected_error", "normalisation failed although every id has a location", desc, "Ok".into(), e.to_string()); } }
